@@ -1,6 +1,7 @@
 package scen
 
 import (
+	"math/rand"
 	"bytes"
 	"fmt"
 	"math"
@@ -220,6 +221,15 @@ func genValue(tp *kernel.Tape, t wType, proto int) (interface{}, []byte) {
 				n = 4096 // collection elements are limited to 64 KiB before protocol 3
 			}
 			v = bytes.Repeat([]byte{0}, n)
+		} else if tp.Chance(1, 12) {
+			// noise: no codec makes it smaller (encrypted, already compressed data)
+			n := []int{700, 100, 5000, 70000, 513}[tp.Next(5)]
+			if proto < 3 && n > 4096 {
+				n = 4096
+			}
+			r := rand.New(rand.NewSource(int64(tp.Next(1 << 30))))
+			v = make([]byte, n)
+			r.Read(v)
 		}
 		return v, append([]byte{}, v...)
 	case cqlspec.TBoolean:
